@@ -1694,6 +1694,48 @@ def run(rep: Report, ctx: Any) -> str:
                   where=f"{PKG}/templates/client.py.jinja", lhs=asyncio_, rhs=blocking)
     rep.floor("client_classes_with_transports", n_transports, 1)
 
+    # ---- R04.13: what the response parser reads of the document is what the document says (shared with C02) ------------------------
+    # "Decoded according to the documented media type" is decided on the document's own words: the key of a `content` entry is looked
+    # up, as written, in the user's content_type_overrides and classified; the keys of `responses` are the statuses.  A validator of the
+    # document model (or any other code) that rewrites one of the fields the response parser reads - re-spelling media type names,
+    # dropping entries, replacing a schema - changes which status / media type / schema is decoded behind the parser's back, whatever
+    # the parser itself does right.  The fields are found by role: every attribute of a document object (a class of the package that
+    # defines Schema, receiver by abstract type) read in the region of response_from_data / _add_responses or in the arguments they are
+    # called with.  For exactly those fields C02's document-frame rule (every in-place write to the parsed document, validators' results
+    # included, is one of the frozen writers) is claimed here under C04's id, with the same construct keys.
+    from .c02 import _document_frame
+
+    rep.rule("R04.13", "the fields of the parsed document that the response parser reads (found by role: attributes of document objects "
+                       "read in the region of response_from_data / _add_responses and in the arguments of their calls) are not rewritten "
+                       "in place - by a pydantic validator or anywhere else - other than by C02's frozen writers: statuses, media type "
+                       "names and schemas reach the parser as the document wrote them (shared with C02's R02.11)")
+    schema_cls = ix.cls("Schema")
+    rep.require(schema_cls, "class Schema")
+    doc_pkg = schema_cls.module.name.rsplit(".", 1)[0]
+    doc_cls = {c.qual: c for c in ix.classes.values() if c.module.name == doc_pkg or c.module.name.startswith(doc_pkg + ".")}
+    parser_fns = {g.qual: g for f0 in (rfd, ar) for g in region(ix, f0)}
+    entry_names = {rfd.name, ar.name}
+    read_nodes: list[ast.AST] = [g.node for g in parser_fns.values()]
+    for f0 in ix.all_functions:
+        if f0.qual not in parser_fns:
+            read_nodes += [a for c in calls_in(f0.node) if call_name(c).rsplit(".", 1)[-1] in entry_names for a in [*c.args, *[k.value for k in c.keywords]]]
+    doc_reads: set[str] = set()
+    for holder in read_nodes:
+        for n in ast.walk(holder):
+            if isinstance(n, ast.Attribute) and isinstance(n.ctx, ast.Load):
+                av = it.node_av.get(id(n.value))
+                doc_reads |= {f"{doc_cls[t].name}.{n.attr}" for t in (getattr(av, "types", ()) or ()) if t in doc_cls}
+    rep.floor("document_fields_read_by_response_parser", len(doc_reads), 3)
+
+    class _OnlyReadFields(_UnderRule):
+        def check(self, cond: bool, rule: str, construct: str, *a: Any, **k: Any) -> bool:
+            return self._rep.check(cond, self._rule, construct, *a, **k) if construct.rsplit("::", 1)[-1] in doc_reads else True
+
+        def floor(self, *a: Any, **k: Any) -> None:       # the floors of the shared rule are C02's
+            return None
+
+    _document_frame(_OnlyReadFields(rep, "R04.13"), ix, it)
+
     # ---- R04.9: the module of an operation is rendered from that operation (shared with C16) ---------------------------------------
     # Everything above is about what the endpoint template writes for the endpoint it is given; the statuses an operation documents are
     # decoded by its module only if the text written to the operation's path is, on every path of the builder, the template rendered
